@@ -1,10 +1,33 @@
 """C10 - external-library options affect only external modules, never internal ones.
 
-  C10.R1  external exclusion predicates are evaluated only on values established to be non-internal
-  C10.R2  the internal test compares whole dotted components (F-NAME sites of the scan pipeline)
-  C10.R3  only externals are appended as modules: the guard of the extension is the internal test
-  C10.R4  with externals excluded the module list is returned unchanged and imports are filtered by the internal test; an excluded
-          ancestor excludes its descendants
+The scan entry point (`generate_graph`, found as the function of the scan package that the public `get_evaluable_architecture`
+hands the options to) is interpreted symbolically (rules/c10_model.py).  The result is a description of the two collections the
+graph is built from - the module list and the import list - as parts with guards over the atoms FLAG (externals excluded), HAS
+(external patterns present), EXCL[x] / ∃EXCL[anc:x] (a pattern matches the name of x / one of its ancestors), INT[x] (the internal
+test accepts the name of x) and INSCAN[x] (x is a scanned module).  The rules are propositional statements about these
+descriptions, decided by exhaustive evaluation, so they do not depend on helper names, on loops versus comprehensions, on early
+returns, on where a guard sits, or on which object carries a decision:
+
+  C10.R1  no decision that depends on the external options changes what happens to an internal element: the retention condition of
+          an import whose importee is internal, and of a scanned internal module, is the same for every value of FLAG / HAS / EXCL
+  C10.R2  the internal test compares whole dotted components (F-NAME sites of everything reachable from the scan entry point, with
+          the positive fixture of rules/names.py instead of a floor) and complete prefixes (no comparison of component lists
+          truncated by zip - embedded positive fixture)
+  C10.R3  exactly the externals are appended as modules: names derived from an import are added only when the internal test
+          rejects its importee, and the importee and its ancestors of every retained external import are added
+  C10.R4  with externals excluded the scanned module list is handed on unchanged, nothing is appended, and only imports accepted by
+          the internal test remain; with externals included an import is dropped exactly when its importee or one of its
+          ancestors matches a pattern
+  C10.R5  the scan pipeline keeps no class-level or module-level state between scans
+
+"Internal" is `is_internal_module` (a name other modules import) wherever it is called; its body - interpreted for a generic name -
+defines INT in terms of the other tests on the same name met in the pipeline (a class answering the same question, a duplicate of
+the test: pure predicates are named after what they test, not after the function).  Where the pipeline never calls it, INT is what
+alone decides, with externals excluded, which imports remain.
+
+Three outcomes: discharged; VIOLATED - only when a counter-example exists whatever the values of the facts the model cannot judge,
+and only on formulas free of modelling gaps (values the interpreter had to leave open carry the mark GAP); undecided otherwise
+(incomplete description of a collection, tests in a spelling the model does not know), with the construct and the reason named.
 """
 
 from __future__ import annotations
@@ -12,228 +35,806 @@ from __future__ import annotations
 import ast
 
 from core.flow import Flow, Spec
-from core.guards import atom, conds_formula, f_not, f_or, implies, to_formula
-from core.loader import AnalysisError, FuncInfo, Repo, ancestors, calls_in, header, norm, own_nodes, parent
+from core.guards import FALSE, TRUE, Formula, atom, atoms_of, evaluate, f_not
+from core.loader import AnalysisError, FuncInfo, Repo, calls_in, header, norm, own_nodes
 from core.report import Result
 
+from . import c10_model as M
 from . import names
-from .c14 import add_sites
-from .common import cfg_of, conds, copy_prop, dotted, guard_formula, is_attr_call, reachable_funcs, stmt_of, types_of, where
+from .c10_model import conj, disj, rename_sym, show
+from .common import reachable_funcs, stmt_of, types_of, where
 
 GG = "pytestarch.eval_structure_generation.graph_generation.graph_generator"
-IMF = "pytestarch.eval_structure_generation.file_import.import_filter"
-IMC = "pytestarch.eval_structure_generation.file_import.importee_module_calculator"
-SCAN_PKG = "pytestarch.eval_structure_generation"
+API = "pytestarch.pytestarch"
+SCAN_PKG = M.SCAN_PKG
+E = "e"  # the generic element in the formulas of the rules
 
 
-def internal_test_functions(repo: Repo) -> set[str]:
-    """Functions that decide 'is internal' by a boundary-safe comparison with the internal prefix (and their wrappers)."""
-    base = repo.find_func(IMF, "is_internal_module")
-    if base is not None:
-        out = {base.fq}
-    else:
-        # by role: functions of the scan pipeline named *internal* that test a module name against a prefix
-        out = {s.fi.fq for s in names.scan(repo) if s.name_typed and s.op == "startswith" and s.fi.module.name.startswith(SCAN_PKG) and "internal" in s.fi.name and any(isinstance(r, ast.Return) for r in own_nodes(s.fi.node))}
-        if not out:
-            raise AnalysisError("the internal-module test of the scan pipeline was not found")
-    changed = True
+# --------------------------------------------------------------------------- anchors by role
+
+
+def find_entry(repo: Repo) -> tuple[FuncInfo, set[str], set[str]]:
+    """The scan entry point and its parameters that carry the `exclude_external_libraries` option / the external patterns.
+
+    Anchors: the public `get_evaluable_architecture(.., exclude_external_libraries, .., external_exclusions,
+    regex_external_exclusions)`; the entry is the function of the scan package it hands these options to.
+    """
     T = types_of(repo)
-    while changed:
-        changed = False
+    api = repo.find_func(API, "get_evaluable_architecture")
+    entry = repo.find_func(GG, "generate_graph")
+    seeds: dict[tuple[str, str], set[str]] = {}
+    if api is not None:
+        for p in api.param_names:
+            if p == "exclude_external_libraries":
+                seeds[(api.fq, p)] = {"FLAG"}
+            elif p in ("external_exclusions", "regex_external_exclusions"):
+                seeds[(api.fq, p)] = {"EXT"}
+    flow = None
+
+    def get_flow():
+        nonlocal flow
+        if flow is None and seeds:
+            flow = Flow(repo, T, Spec(param_seeds=seeds, scope=lambda f: f.module.name == API or f.module.name.startswith(SCAN_PKG)))
+        return flow
+
+    if entry is None and get_flow() is not None:
+        # by role: functions of the scan package called from the public module that receive the option
+        cands = []
         for f in repo.all_functions():
-            if f.fq in out or not f.module.name.startswith(SCAN_PKG):
+            if f.module.name.startswith(SCAN_PKG) and any("FLAG" in flow.param_tags.get((f.fq, p), ()) for p in f.param_names):
+                callers = [g for g in repo.all_functions() if g.module.name == API and any(f in T.callees(g, c, byname_fallback=False)[0] for c in calls_in(g.node))]
+                if callers:
+                    cands.append(f)
+        if len(cands) == 1:
+            entry = cands[0]
+    if entry is None:
+        raise AnalysisError("the scan entry point (generate_graph) was not found")
+    # the entry's own parameter names repeat the public option names; the flow from the public API is the fallback (it is
+    # context-insensitive: a helper shared by the internal and the external patterns would taint both)
+    flag = {p for p in entry.param_names if p == "exclude_external_libraries"}
+    ext = {p for p in entry.param_names if p in ("external_exclusions", "regex_external_exclusions")}
+    if not flag and get_flow() is not None:
+        flag = {p for p in entry.param_names if "FLAG" in flow.param_tags.get((entry.fq, p), ())}
+    if not ext and get_flow() is not None:
+        ext = {p for p in entry.param_names if "EXT" in flow.param_tags.get((entry.fq, p), ())}
+        named = {p for p in ext if "external" in p}
+        ext = named or ext
+    if not flag or not ext:
+        raise AnalysisError(f"{entry.qualname}: the parameters carrying the external options were not found")
+    return entry, flag, ext - flag
+
+
+def named_internal_tests(repo: Repo) -> set[str]:
+    """`is_internal_module` is imported by other modules of the scan package: a public name of the pipeline."""
+    return {f.fq for f in repo.all_functions() if f.cls is None and f.outer is None and f.name == "is_internal_module"}
+
+
+def build_model(repo: Repo) -> tuple[M.Interp, set[str], str]:
+    """Interprets the scan entry point and settles what "internal" means in the description.
+
+    `is_internal_module` (a name other modules import) is an atom INT[x] wherever it is called; its body, interpreted for a generic
+    name, defines INT in terms of whatever other tests on the same name occur in the pipeline (a class that answers the same
+    question, a helper it delegates to), so that both spellings are recognised as the same test.  Where the pipeline never calls
+    it, INT is defined by role: what alone decides, with externals excluded, which imports remain.
+    """
+    entry, flag, ext = find_entry(repo)
+    internal = named_internal_tests(repo)
+    it = M.Interp(repo, entry, flag, ext, internal)
+    interpret(it)
+    how = "by name (is_internal_module)"
+    definition = None
+    for fq in sorted(internal):
+        d = it.formula_of_predicate(repo.funcs[fq])
+        if d is not None and d not in (TRUE, FALSE) and usable_definition(it, d):
+            definition = d
+    if not it.int_calls or not internal:
+        # by role: with externals excluded (and no patterns) exactly the imports accepted by a test on the importee remain
+        for s in it.sinks:
+            if isinstance(s.imports, M.Coll):
+                k = M.retention(s.imports, "x0", lambda b: True)
+                psi = k
+                for a_ in sorted(atoms_of(k)):
+                    if a_ == "FLAG":
+                        psi = M.subst_atom(psi, a_, TRUE)
+                    elif a_ == "HAS" or "EXCL[" in a_ or (it.taint_of_atom(a_) & {"EXT"} and a_.startswith("ISNONE[")):
+                        psi = M.subst_atom(psi, a_, FALSE)
+                for a_ in sorted(atoms_of(psi)):
+                    if M.valid(psi, atom(a_)) and M.valid(atom(a_), psi):
+                        psi = atom(a_)  # e.g. (P and INSCAN) or P
+                        break
+                if psi not in (TRUE, FALSE) and usable_definition(it, psi) and (definition is None or not (atoms_of(definition) & atoms_of(k))):
+                    definition = psi
+                    fns = sorted({it.predicates[a_[: a_.index("[")]].qualname for a_ in atoms_of(psi) if a_.startswith("P<") and a_[: a_.index("[")] in it.predicates})
+                    how = f"by role (`{show(psi)}` alone decides which imports remain when externals are excluded" + (f"; predicates: {', '.join(fns)})" if fns else ")")
+                    internal = internal | {it.predicates[a_[: a_.index("[")]].fq for a_ in atoms_of(psi) if a_.startswith("P<") and a_[: a_.index("[")] in it.predicates}
+    it.int_def = definition
+    return it, internal, how
+
+
+def usable_definition(it: M.Interp, d: Formula) -> bool:
+    """Only tests on the generic name itself, none of them depending on the external options."""
+    return all(M.mentions(a, "x0") and not it.taint_of_atom(a) and not a.startswith(("INT[", "INSCAN[", "EXCL[")) for a in atoms_of(d))
+
+
+def interpret(it: M.Interp) -> None:
+    try:
+        it.run()
+    except AnalysisError:
+        raise
+    except RecursionError as e:
+        raise AnalysisError(f"C10 model: interpretation of {it.entry.qualname} does not terminate ({' -> '.join(x.rsplit('::', 1)[-1] for x in it.stack[-6:])})") from e
+    except Exception as e:  # noqa: BLE001 - a construct the interpreter does not handle is not a verdict
+        raise AnalysisError(f"C10 model: interpretation of {it.entry.qualname} failed in {it.stack[-1].rsplit('::', 1)[-1] if it.stack else '?'}: {type(e).__name__}: {e}") from e
+
+
+# --------------------------------------------------------------------------- formula helpers
+
+
+CANON = ("FLAG", "HAS", "INT[", "EXCL[", "∃EXCL[", "INSCAN[")
+NAME_RELATIONAL = ("STR[", "EQ[", "P<", "CMP[")
+
+
+def is_canonical(a: str) -> bool:
+    return a in ("FLAG", "HAS") or a.startswith(CANON[2:])
+
+
+def e_atoms(it: M.Interp, f: Formula) -> set[str]:
+    return {a for a in atoms_of(f) if it.taint_of_atom(a) & {"FLAG", "EXT"}}
+
+
+def constraints(it: M.Interp, atoms: set[str]) -> Formula:
+    """What is known about the atoms: patterns are rejected together with FLAG by the public entry point (C13.R2); a pattern can
+    only match when there is one; a matching generic ancestor is a matching ancestor; no patterns when the option is None; what the
+    internal test means when it is spelled out somewhere (its definition in terms of the other atoms about the same name)."""
+    cs = [f_not(conj([atom("FLAG"), atom("HAS")]))]
+    for p in sorted(it.ext_params):
+        if f"ISNONE[{p}]" in atoms:
+            cs.append(disj([f_not(atom(f"ISNONE[{p}]")), f_not(atom("HAS"))]))
+    if it.int_def is not None:
+        for k in (E, f"anc:{E}"):
+            d = rename_sym(it.int_def, "x0", k)
+            if f"INT[{k}]" in atoms or atoms_of(d) & atoms:
+                i = atom(f"INT[{k}]")
+                cs.append(disj([f_not(i), d]))
+                cs.append(disj([i, f_not(d)]))
+    for a in sorted(atoms):
+        if "EXCL[" in a or "EXCL(" in a:
+            cs.append(disj([f_not(atom(a)), atom("HAS")]))
+        if a.startswith("EXCL[anc:"):
+            cs.append(disj([f_not(atom(a)), atom("∃" + a)]))
+        if a.startswith("INSCAN["):
+            # every scanned module lies below module_path: the parser names modules relative to the root (C04)
+            cs.append(disj([f_not(atom(a)), atom("INT[" + a[len("INSCAN["):])]))
+    return conj(cs)
+
+
+def depends_on_options(it: M.Interp, k: Formula, assume: dict[str, bool]) -> "dict | None":
+    """A witness (assignment of the other atoms) under which `k` changes its value when only option-dependent atoms change."""
+    names_ = atoms_of(k) | set(assume)
+    ea = sorted(a for a in names_ if it.taint_of_atom(a) & {"FLAG", "EXT"} and a not in assume)
+    rest = sorted(names_ - set(ea) - set(assume))
+    if not ea:
+        return None
+    cons = constraints(it, names_ | {"FLAG", "HAS"})
+    names_ = names_ | atoms_of(cons)
+    ea = sorted(a for a in names_ if it.taint_of_atom(a) & {"FLAG", "EXT"} and a not in assume)
+    rest = sorted(names_ - set(ea) - set(assume))
+    all_e = sorted(set(ea) | {a for a in atoms_of(cons) if a not in rest and a not in assume})
+    for env_r in M.assignments(rest):
+        seen: dict[bool, dict] = {}
+        for env_e in M.assignments(all_e):
+            env = {**env_r, **env_e, **assume}
+            if not evaluate(cons, env):
                 continue
-            rets = [s for s in own_nodes(f.node) if isinstance(s, ast.Return) and s.value is not None]
-            if not rets:
+            v = evaluate(k, env)
+            seen.setdefault(v, env)
+            if len(seen) == 2:
+                return {"kept": seen[True], "dropped": seen[False]}
+    return None
+
+
+def tri(it: M.Interp, premise: Formula, conclusion: Formula) -> tuple[str, "dict | None"]:
+    """'ok' | 'violated' | 'undecided' for premise -> conclusion.
+
+    Violated: some assignment of the canonical atoms and of the element-dependent facts refutes it whatever the values of the free
+    atoms about the configuration (and of unrecognised tests on the name, which might be a second spelling of the internal test)."""
+    names_ = atoms_of(premise) | atoms_of(conclusion)
+    cons = constraints(it, names_ | {"FLAG", "HAS"})
+    names_ |= atoms_of(cons)
+    if M.valid(premise, conclusion, cons):
+        return "ok", None
+    # a test on the element's name in a spelling the model does not know may be the internal test written out a second time
+    int_atom = atom(f"INT[{E}]")
+    for a in sorted(names_):
+        if a.startswith(NAME_RELATIONAL) and M.mentions(a, E) and M.valid(M.subst_atom(premise, a, int_atom), M.subst_atom(conclusion, a, int_atom), cons):
+            return "undecided", {a: True}
+    # (facts about a whole collection - `∃EXCL[•1]`: some name of it matches - are related to the facts about one element in
+    # ways the model does not know: soft)
+    soft = sorted(a for a in names_ if ("•" in a) or (not is_canonical(a) and not about_entry_options(it, a) and (a.startswith(NAME_RELATIONAL) or not (M.mentions(a, E) or any(M.mentions(a, f"x{i}") for i in range(6))))))
+    hard = sorted(names_ - set(soft))
+    for env_h in M.assignments(hard):
+        # a counter-example must not depend on facts the model cannot judge: whatever their values, the premise holds and the
+        # conclusion fails
+        consistent = False
+        robust = True
+        witness = None
+        for env_s in M.assignments(soft):
+            env = {**env_h, **env_s}
+            if not evaluate(cons, env):
                 continue
-            # a wrapper returns the test's result on some path and a constant False/True otherwise
-            hit = False
-            for r in rets:
-                if isinstance(r.value, ast.Call):
-                    cs, _ = T.callees(f, r.value, byname_fallback=False)
-                    if any(c.fq in out for c in cs):
-                        hit = True
-                elif not isinstance(r.value, ast.Constant):
-                    hit = False
-                    break
-            if hit:
-                out.add(f.fq)
-                changed = True
+            consistent = True
+            if not evaluate(premise, env) or evaluate(conclusion, env):
+                robust = False
+                break
+            witness = env
+        if consistent and robust:
+            # a free atom that depends on the external options may stand for a pattern test in a spelling the model does not
+            # know: then nothing can be said about EXCL / HAS
+            opaque = sorted(a for a in names_ if not is_canonical(a) and it.taint_of_atom(a) & {"FLAG", "EXT"} and not a.startswith("ISNONE["))
+            opaque = sorted(set(opaque) | set(not_understood(it, premise, conclusion)))
+            if opaque:
+                return "undecided", {a: True for a in opaque}
+            return "violated", witness
+    return "undecided", None
+
+
+_OPS = {"Eq", "NotEq", "Gt", "GtE", "Lt", "LtE", "Is", "IsNot", "In", "NotIn", "None", "True", "False", "Add", "Sub"}
+
+
+def about_entry_options(it: M.Interp, a: str) -> bool:
+    """A free atom that only talks about parameters of the scan entry point (`ISNONE[level_limit]`): a fact about the
+    configuration that can be true or false - a verdict that fails for one of its values fails for a real configuration."""
+    import re
+
+    m = re.fullmatch(r"(ISNONE|T|EQ|IS|CMP)\[(.*)\]", a)
+    if m is None:
+        return False
+    body = re.sub(r"'[^']*'|\"[^\"]*\"", "", m.group(2))
+    ids = [t for t in re.findall(r"[A-Za-z_][A-Za-z0-9_]*", body) if t not in _OPS]
+    return bool(ids) and all(t in it.entry.param_names for t in ids)
+
+
+def understood(it: M.Interp, a: str) -> bool:
+    """Atoms whose meaning the model knows.  Values and tests the model had to leave open (a call it could not follow, a read from a
+    dictionary, an object compared as a value, a quantifier it could not resolve ...) carry the mark GAP; a verdict VIOLATED is
+    only given on formulas free of them: a counter-example built on a gap may not exist."""
+    return "GAP" not in it.taint_of_atom(a) and not a.startswith("§")
+
+
+def not_understood(it: M.Interp, *fs: Formula) -> list[str]:
+    out: set[str] = set()
+    for f in fs:
+        out |= {a for a in atoms_of(f) if not understood(it, a)}
+    return sorted(out)
+
+
+def fmt_env(env: "dict | None", only: "set[str] | None" = None) -> str:
+    if not env:
+        return ""
+    return ", ".join(f"{k}={'T' if v else 'F'}" for k, v in sorted(env.items()) if only is None or k in only)
+
+
+def part_key(repo: Repo, p: M.Part) -> str:
+    if p.fi is None or p.node is None:
+        return f"<{p.kind} {p.base}>"
+    st = stmt_of(p.node)
+    return repo.key(p.fi, st if st is not None else p.node) + f" [{norm(p.node, 70)}]"
+
+
+def strip_unrelated(it: M.Interp, c: M.Coll) -> M.Coll:
+    """The collection with every filter whose condition mentions neither the external options nor the internal test / the scanned
+    modules made transparent: such filters treat all configurations and all kinds of modules alike and are not the business of C10."""
+    parts = []
+    for p in c.parts:
+        if p.kind == "filter" and p.src is not None:
+            src = strip_unrelated(it, p.src)
+            if p.guard == FALSE:
+                continue
+            if not e_atoms(it, p.guard) and not any(is_canonical(a) for a in atoms_of(p.guard)):
+                # same elements, whatever the options (the path condition under which the filter runs stays)
+                path = strip_elem(p.guard, p.sym)
+                parts += [M.Part(q.kind, conj([q.guard, path]), q.base, q.src, q.sym, q.what, q.items, q.fi, q.node, q.partial, q.loop) for q in src.parts]
+            else:
+                parts.append(M.Part(p.kind, p.guard, p.base, src, p.sym, p.what, p.items, p.fi, p.node, p.partial, p.loop))
+        elif p.kind == "adds" and p.src is not None:
+            parts.append(M.Part(p.kind, p.guard, p.base, strip_unrelated(it, p.src), p.sym, p.what, p.items, p.fi, p.node, p.partial, p.loop))
+        else:
+            parts.append(p)
+    return M.Coll(parts, list(c.removals), c.label)
+
+
+def transparent(c: M.Coll, victim: M.Part) -> M.Coll:
+    """The collection with one filter part (all its copies: same statement) replaced by its source."""
+    parts = []
+    for p in c.parts:
+        if p.kind == "filter" and p.src is not None:
+            src = transparent(p.src, victim)
+            if p.node is victim.node:
+                parts += [M.Part(q.kind, conj([q.guard, strip_elem(p.guard, p.sym)]), q.base, q.src, q.sym, q.what, q.items, q.fi, q.node, q.partial, q.loop) for q in src.parts]
+            else:
+                parts.append(M.Part(p.kind, p.guard, p.base, src, p.sym, p.what, p.items, p.fi, p.node, p.partial, p.loop))
+        else:
+            parts.append(p)
+    return M.Coll(parts, list(c.removals), c.label)
+
+
+def strip_elem(g: Formula, sym: str) -> Formula:
+    """The conjuncts of a guard that do not talk about the element (the path condition under which the filter runs)."""
+    cs = g[1] if g[0] == "and" else [g]
+    return conj([h for h in cs if not any(M.mentions(a, sym) for a in atoms_of(h))])
+
+
+# --------------------------------------------------------------------------- the ancestor walk, unrolled on concrete names
+
+
+def check_walk(repo: Repo, res: Result, it: M.Interp, internal: set[str]) -> "bool | None":
+    """R4, ancestor part made concrete: the pipeline is interpreted once more with four concrete imports (of `aa`, `aa.bb`,
+    `aa.bb.cc`, `aa.bb.cc.dd`) instead of a generic one.  Strings derived from these names are computed (partition / rpartition /
+    split / slices / join / f-strings ...), `while` loops over them are carried out round by round and recursion on them is
+    followed; a pattern test on the concrete name n is the atom EXCL('n').  With externals included, patterns present and the
+    import external, the retention of the import of N must be false as soon as N or ANY of its proper ancestors matches, and
+    true when none does: an ancestor whose atom does not switch the import off is never tested.
+
+    True: decided and fine for all four names; False: a violation was reported; None: no verdict from the unrolling.
+    """
+    try:
+        itc = M.Interp(repo, it.entry, it.flag_params, it.ext_params, internal, concrete=True)
+        itc.run()
+    except Exception as e:  # noqa: BLE001 - the symbolic rules still speak
+        res.observe(f"C10.R4 ancestor walk: the unrolling on concrete names failed ({type(e).__name__}: {e})")
+        return None
+    if len(itc.sinks) != 1 or not isinstance(itc.sinks[0].imports, M.Coll):
+        return None
+    sink = itc.sinks[0]
+    sink_key = repo.key(sink.fi, stmt_of(sink.node) or sink.node)
+    verdicts = []
+    for ci in itc.conc_imports:
+        k = disj(p.guard for p in sink.imports.parts if p.kind == "lit" and any(i is ci for i in p.items))
+        if any(p.kind != "lit" for p in sink.imports.parts):
+            return None  # the import list is not made of the concrete imports only
+        lineage = [ci.name, *reversed(M.dotted_ancestors(ci.name))]
+        excl = {n: f"EXCL({n!r})" for n in lineage}
+        others = sorted(atoms_of(k) - set(excl.values()))
+        if len(others) > 12:
+            return None
+        # a situation in which this import is an external one that is kept because nothing matches - and is dropped when it
+        # matches itself: externals included, patterns present, every other fact as favourable as needed
+        # every situation (values of the other facts) in which this import is an external one that is kept because nothing
+        # matches and dropped when it matches itself - externals included: in each of them every ancestor must switch it off too
+        tested_all: "set[str] | None" = None
+        has_int = any(a_.startswith("INT(") for a_ in others)
+        for env_o in M.assignments(others):
+            if env_o.get("FLAG") or env_o.get("HAS") is False or any(v for a_, v in env_o.items() if a_.startswith("INT(")):
+                continue  # externals included, patterns present, the import not internal
+            base = {**env_o, **{a_: False for a_ in excl.values()}}
+            if not evaluate(k, base):
+                continue
+            if not has_int and evaluate(k, {**base, excl[ci.name]: True}):
+                continue  # (no named internal test in the formula: a situation in which the patterns have no say is an internal one)
+            t_here = {n for n in lineage if not evaluate(k, {**base, excl[n]: True})}
+            tested_all = t_here if tested_all is None else (tested_all & t_here)
+        if tested_all is None:
+            return None  # no situation in which this import is a retained external one: R4 (symbolic) speaks
+        tested = [n for n in lineage if n in tested_all]
+        skipped = [n for n in lineage if n not in tested_all]
+        extra = sorted(a_ for a_ in atoms_of(k) if a_.startswith("EXCL(") and a_ not in excl.values())
+        verdicts.append((ci.name, tested, skipped, extra, k))
+    cuts = []
+    for f, text, _node in itc.cuts:
+        c = f"`{text}` in {f.qualname}"
+        if c not in cuts:
+            cuts.append(c)
+    if not any(t for _n, t, _sk, _x, _k in verdicts):
+        return None  # no pattern test on any concrete name met: the symbolic obligations speak
+    bad = [(n, t, sk) for n, t, sk, _x, _k in verdicts if sk]
+    construct = sink_key + " [include mode: every ancestor consulted]"
+    if bad:
+        n, t, sk = max(bad, key=lambda b: len(b[0]))
+        detail = (
+            f"for an external import of `{n}` the exclusion patterns are applied to {', '.join('`' + x + '`' for x in t) or 'no name'} but never to "
+            f"{', '.join('`' + x + '`' for x in sk)}: an external whose ancestor `{sk[0]}` matches a pattern keeps its import (and the calculator re-adds the excluded package). "
+            + (f"The names are derived by {'; '.join(cuts[:4])}." if cuts else "")
+            + " (unrolled on " + ", ".join(f"`{v[0]}`: tested {{{', '.join(v[1])}}}" for v in verdicts) + ")"
+        )
+        where_ = ""
+        for f, _text, node in itc.cuts:
+            where_ = where(f, node)
+            break
+        res.add("C10.R4", construct, False, detail, where_ or where(sink.fi, sink.node), kind="decision-table")
+        return False
+    res.add("C10.R4", construct, True, "unrolled on the names aa, aa.bb, aa.bb.cc, aa.bb.cc.dd: an external import is switched off by a match of the importee and of each of its proper ancestors (" + "; ".join(f"{v[0]}: {{{', '.join(v[1])}}}" for v in verdicts) + ")" + (f"; names derived by {'; '.join(cuts[:3])}" if cuts else ""), where(sink.fi, sink.node), kind="decision-table")
+    return True
+
+
+# --------------------------------------------------------------------------- the rules on one sink
+
+
+def check_sink(repo: Repo, res: Result, it: M.Interp, s: M.Sink, walk_ok: "bool | None" = None) -> None:
+    sink_key = repo.key(s.fi, stmt_of(s.node) or s.node)
+    sink_where = where(s.fi, s.node)
+    mods, imps = s.modules, s.imports
+    if not isinstance(imps, M.Coll) or not isinstance(mods, M.Coll):
+        res.undecide("C10.R1", sink_key, "the module list / import list handed to the graph could not be described as a collection", sink_where)
+        return
+    any_base = lambda b: True  # noqa: E731
+    scanned = lambda b: b.startswith("scanned:")  # noqa: E731
+    # ---- things the model cannot speak about: no verdict on a description that is incomplete
+    n_und = len(res.undecided)
+    for c, what in ((imps, "import list"), (mods, "module list")):
+        seen_rem = set()
+        for p, _down in M.walk_parts(c):
+            if p.partial:
+                res.undecide("C10.R1", part_key(repo, p), f"`{p.text()}` contributes to the {what} from inside a loop the model does not follow (while / break / growing work list)", p.where())
+            elif p.kind == "base":
+                origin = p.base.split(":", 1)[1]
+                if set(p.items) & {"FLAG", "EXT"}:
+                    res.undecide("C10.R1", sink_key + f" [{p.base}]", f"the {what} contains the result of `{origin}`, which depends on the external options in a way the model cannot follow", sink_where)
+                elif what == "import list" and scanned(p.base):
+                    res.undecide("C10.R1", sink_key + f" [{p.base}]", f"the import list contains scanned module names (`{origin}`)", sink_where)
+                elif what == "module list" and not scanned(p.base):
+                    res.undecide("C10.R3", sink_key + f" [{p.base}]", f"the module list contains names of unknown origin (`{origin}`): neither scanned modules nor names derived from an import in a way the model follows", sink_where)
+            elif p.kind == "lit" and any(not isinstance(i, M.Const) for i in p.items):
+                res.undecide("C10.R1", part_key(repo, p), f"`{p.text()}` puts a value of unknown origin ({', '.join(M.key(i) for i in p.items)}) into the {what}", p.where())
+            elif p.kind == "adds" and what == "import list":
+                res.undecide("C10.R1", part_key(repo, p), f"`{p.text()}` puts module names into the import list", p.where())
+        for p, _down in [(None, None), *M.walk_parts(c)]:
+            cc = c if p is None else p.src
+            if cc is None:
+                continue
+            for g, text, fi, node in cc.removals:
+                if id(node) not in seen_rem:
+                    seen_rem.add(id(node))
+                    res.undecide("C10.R1", repo.key(fi, stmt_of(node) or node), f"`{text}` removes elements from the {what}: removals are not modelled", where(fi, node))
+    if not [p for p in M.bases_of(mods) if scanned(p.base)]:
+        res.undecide("C10.R1", sink_key, "the module list handed to the graph is not derived from the parser's module list (Parser.parse)", sink_where)
+    if len(res.undecided) > n_und:
+        return
+    k_imp = M.retention(imps, E, any_base)
+    k_scan = M.retention(mods, E, scanned)
+    INT, FLAG, HAS = atom(f"INT[{E}]"), atom("FLAG"), atom("HAS")
+    EX, EXA, INSCAN = atom(f"EXCL[{E}]"), atom(f"∃EXCL[anc:{E}]"), atom(f"INSCAN[{E}]")
+
+    # ---- R1: option-dependent decisions never touch internal elements
+    def r1(c: M.Coll, k: Formula, assume: dict[str, bool], what: str, breaks: str) -> None:
+        fparts = [p for p, _ in M.walk_parts(c) if p.kind == "filter" and e_atoms(it, p.guard)]
+        w = depends_on_options(it, k, assume)
+        if w is None:
+            for p in fparts:
+                res.add("C10.R1", part_key(repo, p), True, f"{what}: kept under `{show(rename_sym(p.guard, p.sym, E))}`; for an internal element the combined retention condition does not depend on the external options", p.where(), kind="decision-table")
+            res.add("C10.R1", sink_key + f" [{what}]", True, f"retention of an internal element is `{show(k)}`: constant in FLAG / HAS / EXCL once the element is internal", sink_where, kind="decision-table")
+            return
+        # a test on the name in a spelling the model does not know may be the internal test written out a second time: if the
+        # dependence disappears once it is assumed to hold, the verdict hinges on what that test means (F-NAME, R2, judges it)
+        for a in sorted(atoms_of(k)):
+            if a.startswith(NAME_RELATIONAL) and M.mentions(a, E) and depends_on_options(it, k, {**assume, a: True}) is None:
+                res.undecide("C10.R1", sink_key + f" [{what}]", f"the retention of an internal element, `{show(k)}`, is independent of the external options only if `{a}` holds for internal elements: a test on the name that is not the recognised internal test decides here", sink_where)
+                return
+        unknown = not_understood(it, k)
+        if unknown:
+            res.undecide("C10.R1", sink_key + f" [{what}]", f"the retention of an internal element, `{show(k)}`, seems to depend on the external options, but it contains tests the model does not know: {', '.join(unknown)}", sink_where)
+            return
+        # name the filters without which the dependence disappears
+        named = False
+        base_ok = scanned if what == "modules" else any_base
+        for p in fparts:
+            k_wo = M.retention(transparent(c, p), E, base_ok)
+            if depends_on_options(it, k_wo, assume) is None:
+                named = True
+                res.add("C10.R1", part_key(repo, p), False, f"{what}: `{norm(p.node, 70)}` keeps an element under `{show(rename_sym(p.guard, p.sym, E))}`; with it the retention of an internal element is `{show(k)}`: true under ({fmt_env(w['kept'])}), false under ({fmt_env(w['dropped'])}), which differ only in the external options: {breaks}", p.where(), kind="decision-table")
+        if not named:
+            res.add("C10.R1", sink_key + f" [{what}]", False, f"retention of an internal element is `{show(k)}`: true under ({fmt_env(w['kept'])}), false under ({fmt_env(w['dropped'])}), which differ only in the external options: {breaks}", sink_where, kind="decision-table")
+
+    r1(imps, k_imp, {f"INT[{E}]": True}, "imports", "an external pattern that textually matches an internal importee (or the exclude option) removes an import between internal modules")
+    r1(mods, k_scan, {f"INT[{E}]": True, f"INSCAN[{E}]": True}, "modules", "an external pattern that textually matches an internal module removes it (and its imports) from the architecture")
+
+    # ---- R4: the two modes on the import list (filters unrelated to the options made transparent)
+    imps_r, mods_r = strip_unrelated(it, imps), strip_unrelated(it, mods)
+    k_imp_r = M.retention(imps_r, E, any_base)
+    k_scan_r = M.retention(mods_r, E, scanned)
+
+    def verdict(rule: str, construct: str, premise: Formula, conclusion: Formula, ok_text: str, bad_text: str, at: str, by_unrolling: bool = False) -> None:
+        if by_unrolling and walk_ok is not None:
+            # which names the patterns are applied to is decided on the concrete names aa .. aa.bb.cc.dd (obligation `every
+            # ancestor consulted`): exact for walks over the ancestors (recursive, iterative, by index), which the generic
+            # description can only leave open or misread
+            if walk_ok:
+                res.add(rule, construct, True, ok_text + " (decided by unrolling the pipeline on imports of names with 1 to 4 components)", at, kind="decision-table")
+            return
+        st, w = tri(it, premise, conclusion)
+        if st == "ok":
+            res.add(rule, construct, True, ok_text, at, kind="decision-table")
+        elif st == "violated":
+            res.add(rule, construct, False, bad_text + f" (witness: {fmt_env(w)})", at, kind="decision-table")
+        else:
+            hint = f" (tests in a spelling the model does not know: {', '.join(w)})" if w else ""
+            res.undecide(rule, construct, f"cannot decide `{show(premise)}` -> `{show(conclusion)}`: it hinges on facts the model does not know{hint}", at)
+
+    verdict("C10.R4", sink_key + " [exclude mode: imports]", conj([k_imp_r, FLAG]), INT, "with externals excluded only imports accepted by the internal test remain", f"with externals excluded an import whose importee is not internal is retained: retention is `{show(k_imp_r)}`", sink_where)
+    verdict("C10.R4", sink_key + " [include mode: matching externals dropped]", conj([k_imp_r, f_not(INT), f_not(FLAG)]), conj([f_not(EX), f_not(EXA)]), "an external import is dropped when its importee or one of its ancestors matches a pattern", f"an external import whose importee or one of whose ancestors matches an external exclusion pattern is retained (the patterns are not consulted for it): retention is `{show(k_imp_r)}`", sink_where, by_unrolling=True)
+    verdict("C10.R4", sink_key + " [include mode: other externals kept]", conj([f_not(FLAG), f_not(EX), f_not(EXA)]), k_imp_r, "with externals included every import that matches no pattern (itself and its ancestors) is retained", f"with externals included an import that matches no external pattern is dropped: retention is `{show(k_imp_r)}`", sink_where, by_unrolling=True)
+    verdict("C10.R4", sink_key + " [exclude mode: modules]", conj([FLAG, INSCAN]), k_scan_r, "with externals excluded every scanned module is handed to the graph", f"with externals excluded a scanned module is not handed on: retention is `{show(k_scan_r)}`", sink_where)
+
+    # ---- R3 / R4: what is appended to the module list
+    adds = [(p, down) for p, down in M.walk_parts(mods_r) if p.kind == "adds"]
+    cover: dict[str, list[Formula]] = {"self": [], "parents": []}
+    grouped: dict[tuple[int, str], tuple[M.Part, list[Formula]]] = {}
+    for p, down in adds:
+        if not (p.items and p.items[0] == "import"):
+            continue  # ancestors of scanned names etc.: not derived from an import
+        name = E if p.what == "self" else f"anc:{E}"
+        gate = conj([rename_sym(p.guard, p.sym, E), rename_sym(down, "@", name)])
+        # the element the names are derived from is an element of the part's source: it satisfies the source's own conditions
+        src_ret = M.retention(p.src, E, any_base) if p.src is not None else TRUE
+        gate = conj([gate, src_ret])
+        # coverage: "unless the name was added before by this very loop" (de-duplication against the accumulator) adds nothing new
+        cov = gate
+        if p.loop is not None:
+            for a_ in sorted(atoms_of(gate)):
+                if a_.startswith("IN[") and a_.endswith(f"@L{p.loop.serial}]"):
+                    cov = M.subst_atom(cov, a_, FALSE)
+        cover[p.what].append(cov)
+        grouped.setdefault((id(p.node), p.what), (p, []))[1].append(gate)
+    for (_nid, _w), (p, gates) in grouped.items():
+        gate = disj(gates)
+        what = "the importee" if p.what == "self" else "the ancestors of the importee"
+        st, w = tri(it, gate, f_not(INT))
+        if st == "ok":
+            res.add("C10.R3", part_key(repo, p), True, f"{what} become(s) a module only under `{show(gate)}`, which implies that the internal test rejects the importee", p.where(), kind="dominance")
+        elif st == "violated":
+            res.add("C10.R3", part_key(repo, p), False, f"`{norm(p.node, 70)}` adds {what} of an import as module(s) under `{show(gate)}`, which does not establish that the internal test rejects the importee (witness: {fmt_env(w)}): names below the internal prefix that are not scanned modules (imported functions, excluded files) become modules, so internal content depends on the external options", p.where(), kind="dominance")
+        else:
+            res.undecide("C10.R3", part_key(repo, p), f"cannot establish that `{show(gate)}` implies that the importee is not internal", p.where())
+        st, w = tri(it, gate, f_not(FLAG))
+        if st == "ok":
+            res.add("C10.R4", part_key(repo, p) + " [include mode only]", True, "names of imports are appended only when externals are included", p.where(), kind="dominance")
+        elif st == "violated":
+            res.add("C10.R4", part_key(repo, p) + " [include mode only]", False, f"`{norm(p.node, 70)}` appends {what} under `{show(gate)}` although externals are excluded: with externals excluded the module list is not the scanned list", p.where(), kind="dominance")
+        else:
+            res.undecide("C10.R4", part_key(repo, p) + " [include mode only]", f"cannot establish that `{show(gate)}` implies that externals are included", p.where())
+    for whatk, label in (("self", "importee"), ("parents", "ancestors")):
+        name = E if whatk == "self" else f"anc:{E}"
+        present = disj([*cover[whatk], conj([atom(f"INSCAN[{name}]"), rename_sym(k_scan_r, E, name)])])
+        # (imports that match a pattern are the business of R4)
+        premise = conj([k_imp_r, f_not(INT), f_not(FLAG), f_not(EX), f_not(EXA)])
+        verdict("C10.R3", sink_key + f" [externals appended: {label}]", premise, present, f"the {label} of every retained external import is in the module list", f"with externals included the {label} of a retained external import is not appended to the module list (it is a module only under `{show(present)}`): the external module and its import silently vanish from the architecture", sink_where)
+    res.extra.setdefault("c10_model", []).append({"sink": sink_key, "imports_retained": show(k_imp), "scanned_module_retained": show(k_scan), "appended": [f"{p.what}: {show(p.guard)}" for p, _ in adds]})
+
+
+# --------------------------------------------------------------------------- R2: the internal test itself
+
+
+def internal_closure(repo: Repo, internal: set[str]) -> list[FuncInfo]:
+    roots = [f for f in repo.all_functions() if f.fq in internal]
+    return list(reachable_funcs(repo, roots, byname=False))
+
+
+def _split_components(repo: Repo, f: FuncInfo, e: ast.expr, depth: int = 0) -> "str | None":
+    """Text of the string whose '.'-components `e` is (through single-assignment locals, list()/tuple(), fields set in the
+    class, helpers with a single return; the separator may be a constant that folds to '.'), else None."""
+    from core.fold import fold
+
+    if depth > 6:
+        return None
+    if isinstance(e, ast.Call) and isinstance(e.func, ast.Attribute) and e.func.attr in ("split", "rsplit") and e.args and fold(repo, f.module, e.args[0], f) == ".":
+        return norm(e.func.value)
+    if isinstance(e, ast.Call) and isinstance(e.func, ast.Name) and e.func.id in ("list", "tuple") and len(e.args) == 1:
+        return _split_components(repo, f, e.args[0], depth + 1)
+    if isinstance(e, ast.Call):
+        try:
+            cs, how = types_of(repo).callees(f, e, byname_fallback=False)
+        except Exception:  # noqa: BLE001
+            cs, how = [], ""
+        if len(cs) == 1 and how == "repo" and not isinstance(cs[0].node, ast.Lambda):
+            rets = [r for r in own_nodes(cs[0].node) if isinstance(r, ast.Return) and r.value is not None]
+            if len(rets) == 1:
+                inner = _split_components(repo, cs[0], rets[0].value, depth + 1)
+                if inner is not None:
+                    return f"{cs[0].name}({', '.join(norm(a, 30) for a in e.args)})"
+    if isinstance(e, ast.Attribute) and isinstance(e.value, ast.Name) and e.value.id == "self" and f.cls is not None:
+        vals = []
+        for m in f.cls.methods.values():
+            for n in own_nodes(m.node):
+                if isinstance(n, (ast.Assign, ast.AnnAssign)) and n.value is not None:
+                    for t in (n.targets if isinstance(n, ast.Assign) else [n.target]):
+                        if isinstance(t, ast.Attribute) and isinstance(t.value, ast.Name) and t.value.id == "self" and t.attr == e.attr:
+                            vals.append(_split_components(repo, m, n.value, depth + 1))
+        if vals and all(v is not None for v in vals):
+            return f"self.{e.attr}"
+    if isinstance(e, ast.Name) and not isinstance(f.node, ast.Lambda):
+        assigns = [n for n in own_nodes(f.node) if isinstance(n, (ast.Assign, ast.AnnAssign)) and n.value is not None and any(isinstance(t, ast.Name) and t.id == e.id for t in (n.targets if isinstance(n, ast.Assign) else [n.target]))]
+        if len(assigns) == 1:
+            return _split_components(repo, f, assigns[0].value, depth + 1)
+        # a, b = x.split("."), y.split(".")
+        for n in own_nodes(f.node):
+            if isinstance(n, ast.Assign) and len(n.targets) == 1 and isinstance(n.targets[0], ast.Tuple) and isinstance(n.value, ast.Tuple) and len(n.value.elts) == len(n.targets[0].elts):
+                for t, v in zip(n.targets[0].elts, n.value.elts):
+                    if isinstance(t, ast.Name) and t.id == e.id:
+                        return _split_components(repo, f, v, depth + 1)
+    return None
+
+
+def zip_truncations(repo: Repo, funcs: list[FuncInfo]) -> list[tuple[FuncInfo, ast.Call, bool, str]]:
+    """zip(<components of a>, <components of b>) calls: (function, call, length guarded?, text)."""
+    out = []
+    for f in funcs:
+        if isinstance(f.node, ast.Lambda):
+            continue
+        for c in calls_in(f.node):
+            if not (isinstance(c.func, ast.Name) and c.func.id == "zip" and len(c.args) == 2):
+                continue
+            comps = [_split_components(repo, f, a) for a in c.args]
+            if None in comps:
+                continue
+            strict = any(k.arg == "strict" and isinstance(k.value, ast.Constant) and k.value.value is True for k in c.keywords)
+            texts = {norm(a) for a in c.args}
+            guarded = strict
+            for n in own_nodes(f.node):
+                if isinstance(n, ast.Compare):
+                    lens = [x for x in ast.walk(n) if isinstance(x, ast.Call) and isinstance(x.func, ast.Name) and x.func.id == "len" and x.args]
+                    if len({norm(x.args[0]) for x in lens} & texts) == 2 or len({_split_components(repo, f, x.args[0]) for x in lens} & set(comps)) == 2:
+                        guarded = True
+            out.append((f, c, guarded, f"zip({norm(c.args[0], 40)}, {norm(c.args[1], 40)})"))
     return out
+
+
+def add_sites(repo: Repo, res: Result, rule: str, sites) -> int:
+    """One obligation per classified F-NAME site (same reporting as C14.R1)."""
+    n = 0
+    for s in sites:
+        key = repo.key(s.fi, stmt_of(s.node)) + f" [{s.op}: {norm(s.node, 70)}]"
+        if s.verdict in ("safe", "unsafe"):
+            n += 1
+            res.add(rule, key, s.verdict == "safe", s.why, where(s.fi, s.node), kind="flow")
+        elif s.verdict == "reviewed":
+            res.observe(f"{rule} reviewed site {s.fi.relpath}::{s.fi.qualname}: `{norm(s.node, 60)}` - {s.why}")
+        elif s.verdict == "unknown":
+            if s.op in ("startswith", "removeprefix") and s.needle is not None and ends_with_separator(repo, s.fi, s.needle):
+                n += 1
+                res.add(rule, key, True, "prefix ends in '.' (constant separator appended: whole dotted components)", where(s.fi, s.node), kind="flow")
+            else:
+                res.undecide(rule, key, s.why, where(s.fi, s.node))
+        elif s.verdict == "unclassified":
+            res.observe(f"{rule} unclassified (not armed) {s.fi.relpath}::{s.fi.qualname}: `{norm(s.node, 60)}` - {s.why}")
+    return n
+
+
+ZIP_FIXTURE = '''
+def unsafe_zip(module: str, prefix: str) -> bool:
+    wanted = prefix.rstrip(".").split(".")
+    return all(a == b for a, b in zip(module.split("."), wanted))
+
+
+def safe_zip_with_length(module: str, prefix: str) -> bool:
+    have, wanted = module.split("."), prefix.split(".")
+    return len(have) >= len(wanted) and all(a == b for a, b in zip(have, wanted))
+
+
+def safe_slice(module: str, prefix: str) -> bool:
+    wanted = prefix.split(".")
+    return module.split(".")[: len(wanted)] == wanted
+'''
+
+
+def zip_fixture_selfcheck() -> str:
+    """The expected number of truncated comparisons on the real tree is zero: a positive fixture shows that the lint still bites."""
+    import shutil
+    import tempfile
+    from pathlib import Path
+
+    tmp = Path(tempfile.mkdtemp(prefix="pta-c10-fixture-"))
+    try:
+        (tmp / "src" / "pytestarch").mkdir(parents=True)
+        (tmp / "src" / "pytestarch" / "fixture_c10_zip.py").write_text(ZIP_FIXTURE)
+        fx = Repo(tmp)
+        got = {f.name: guarded for f, _c, guarded, _t in zip_truncations(fx, fx.all_functions())}
+        if got != {"unsafe_zip": False, "safe_zip_with_length": True}:
+            raise AnalysisError(f"C10.R2 fixture: zip comparisons not classified as expected: {got}")
+        return "1 truncated and 1 length-guarded zip comparison of component lists classified as expected (embedded fixture)"
+    finally:
+        shutil.rmtree(tmp, ignore_errors=True)
+
+
+def ends_with_separator(repo: Repo, f: FuncInfo, e: ast.expr, depth: int = 0) -> bool:
+    """The string provably ends with '.', also when the separator is a module-level constant or comes through a local
+    (rules/names.py leaves such prefixes unclassified)."""
+    from core.fold import fold
+
+    if depth > 5:
+        return False
+    s = fold(repo, f.module, e, f)
+    if s is not None:
+        return s.endswith(".")
+    if isinstance(e, ast.BinOp) and isinstance(e.op, ast.Add):
+        return ends_with_separator(repo, f, e.right, depth + 1)
+    if isinstance(e, ast.JoinedStr) and e.values:
+        last = e.values[-1]
+        return ends_with_separator(repo, f, last.value if isinstance(last, ast.FormattedValue) else last, depth + 1)
+    if isinstance(e, ast.IfExp):
+        return ends_with_separator(repo, f, e.body, depth + 1) and ends_with_separator(repo, f, e.orelse, depth + 1)
+    if isinstance(e, ast.Name) and not isinstance(f.node, ast.Lambda) and e.id not in f.param_names:
+        assigns = [n for n in own_nodes(f.node) if isinstance(n, (ast.Assign, ast.AnnAssign)) and n.value is not None and any(isinstance(t, ast.Name) and t.id == e.id for t in (n.targets if isinstance(n, ast.Assign) else [n.target]))]
+        stores = [n for n in own_nodes(f.node) if isinstance(n, ast.Name) and n.id == e.id and isinstance(n.ctx, ast.Store)]
+        if assigns and len(stores) == len(assigns):
+            return all(ends_with_separator(repo, f, a.value, depth + 1) for a in assigns)
+    return False
+
+
+def run_r2(repo: Repo, res: Result, it: M.Interp, internal: set[str], how: str) -> None:
+    stop = {f.fq for f in repo.all_functions() if f.cls is not None and any(c.name == M.SINK_CLASS for c in repo.mro(f.cls))}
+    reach = reachable_funcs(repo, [it.entry], byname=True, stop=stop)
+    reach_fq = {f.fq for f in reach if f.fq not in stop and not (f.cls is not None and not f.module.name.startswith(SCAN_PKG) and any(c.name == "EvaluableArchitectureGraph" for c in repo.mro(f.cls)))}
+    reach_fq |= {f.fq for f in internal_closure(repo, internal)}
+    sites = [s for s in names.scan(repo) if s.fi.fq in reach_fq or (s.fi.outer is not None and s.fi.outer.fq in reach_fq)]
+    add_sites(repo, res, "C10.R2", sites)
+    # the expected number of unsafe sites is zero and a refactoring may legitimately remove every string operation on names
+    # (comparison of component lists): the positive fixture shows on every run that the lint still bites
+    res.add("C10.R2", "fixture::engine/fixtures/name_ops.py", True, names.fixture_selfcheck(), nontrivial=False)
+    res.analysed["functions_reachable_from_scan_entry"] = len(reach_fq)
+    # the internal test exists and is what the pipeline uses
+    if not it.int_calls and it.int_def is None:
+        res.undecide("C10.R2", f"{it.entry.relpath}::{it.entry.qualname}::internal test", "no internal-module test was met while interpreting the scan pipeline (neither a call of `is_internal_module` nor a test on the importee in its role)", where(it.entry, it.entry.node))
+        return
+    fns = internal_closure(repo, internal)
+    res.observe(f"C10.R2 internal test found {how}; closure: {sorted(f.qualname for f in fns)}")
+    zs = zip_truncations(repo, [f for f in repo.all_functions() if f.fq in reach_fq or f in fns])
+    for f, c, guarded, text in zs:
+        res.add(
+            "C10.R2",
+            repo.key(f, stmt_of(c) or c) + f" [{text}]",
+            guarded,
+            "component lists are compared pairwise together with their lengths" if guarded else f"`{text}` compares the dotted components pairwise but zip() stops at the shorter list and no length comparison accompanies it: a module with fewer components than the internal prefix that agrees on all of them (a proper ancestor package of module_path) counts as internal, so imports of it survive `exclude_external_libraries=True` and matching external exclusion patterns",
+            where(f, c),
+            kind="structural",
+        )
+    res.add("C10.R2", "fixture::zip comparison of component lists", True, zip_fixture_selfcheck(), nontrivial=False)
+    for f in [g for g in fns if g.fq in internal][:1] or [it.entry]:
+        res.add("C10.R2", f"{f.relpath}::{f.qualname}::complete prefixes", all(g for _f, _c, g, _t in zs), f"the internal test ({how}) contains no comparison of component lists truncated by zip ({len(zs)} zip comparison(s) of component lists inspected)", where(f, f.node), nontrivial=bool(zs), kind="structural")
+
+
+# --------------------------------------------------------------------------- run
 
 
 def run(repo: Repo) -> Result:
     res = Result("C10")
     res.explanation = (
-        "Decides structurally that external options cannot touch internal modules: (R1) every evaluation of an external exclusion predicate "
-        "(a FileFilter built from the external patterns) sits under a guard that establishes the value is not internal - not a scanned module, "
-        "resp. not accepted by the internal test; (R2) the internal test compares whole dotted components; (R3) the module list is extended "
-        "only under the negated internal test; (R4) with externals excluded the module list is returned unchanged before anything else, "
-        "imports are filtered by the internal test, and an excluded ancestor excludes its descendants."
+        "Interprets the scan entry point symbolically (rules/c10_model.py: statements once, loops for a generic element, calls of repository "
+        "functions followed with their arguments, vocabulary classes opaque) and obtains the module list and the import list handed to the graph "
+        "as parts with propositional guards over FLAG / HAS / EXCL / INT / INSCAN. Decides on these descriptions: (R1) the retention condition of an "
+        "internal import and of a scanned internal module is the same for every value of the external options; (R2) the internal test compares whole "
+        "dotted components and complete prefixes; (R3) names derived from an import are appended exactly when the internal test rejects the importee; "
+        "(R4) with externals excluded the scanned module list is handed on unchanged and only internal imports remain, with externals included an import "
+        "is dropped exactly when the importee or an ancestor matches a pattern; (R5) the scan pipeline writes no shared state."
     )
-    res.not_decided = "equality of the internal sub-graphs across all configurations (a relation between scans)."
-    res.trusted_base = ["engine flow analysis (provenance of the external patterns), guard implication"]
-    T = types_of(repo)
-    internal_fns = internal_test_functions(repo)
-    gen = repo.func(GG, "generate_graph")
-    ext_param = next((p for p in gen.param_names if "external_exclusions" in p), None)
-    if ext_param is None:
-        raise AnalysisError("generate_graph: parameter with the external exclusion patterns not found")
-
-    def transfer(f: FuncInfo, call: ast.Call, names_, args, recv, kwargs):
-        return None
-
-    flow = Flow(repo, T, Spec(param_seeds={(gen.fq, ext_param): {"EXT"}}, scope=lambda f: f.module.name.startswith(SCAN_PKG)))
-
-    def is_internal_call(f: FuncInfo, e: ast.AST) -> bool:
-        if isinstance(e, ast.Call):
-            cs, _ = T.callees(f, e, byname_fallback=False)
-            return any(c.fq in internal_fns for c in cs)
-        return False
-
-    # ---- R1
-    n = 0
-    for f in repo.all_functions():
-        if not f.module.name.startswith(SCAN_PKG):
-            continue
-        for c in calls_in(f.node):
-            if not (isinstance(c.func, ast.Attribute) and c.func.attr == "is_excluded" and c.args):
-                continue
-            if "EXT" not in flow.tags(c.func.value):
-                continue
-            n += 1
-            arg = c.args[0]
-            cs_ = conds(f, c)
-            ok = False
-            why = ""
-            argn = norm(arg)
-            for e, pol in cs_:
-                for sub in ast.walk(e):
-                    # negated internal test on the value (or on the import it belongs to)
-                    if is_internal_call(f, sub):
-                        fml = to_formula(e, copy_prop(f, internal_fns))
-                        a = atom(f"bool({norm(sub)})")
-                        if implies(conds_formula(cs_, copy_prop(f, internal_fns)), f_not(a)):
-                            ok, why = True, f"guarded by `not {norm(sub, 50)}`"
-                    # membership in the set of scanned modules (taken before externals were added)
-                    if isinstance(sub, ast.Compare) and len(sub.ops) == 1 and isinstance(sub.ops[0], (ast.In, ast.NotIn)) and norm(sub.left) == argn:
-                        setv = dotted(sub.comparators[0])
-                        a = atom(f"{argn} in {setv}")
-                        if implies(conds_formula(cs_, copy_prop(f, internal_fns)), f_not(a)) and _is_scanned_set(f, setv):
-                            ok, why = True, f"guarded by `{argn} not in {setv}` ({setv} = the scanned modules)"
-            # the ancestors of an import already established external count as external
-            if not ok:
-                for lp in [a for a in ancestors(c) if isinstance(a, (ast.GeneratorExp, ast.ListComp, ast.For))]:
-                    its = [g.iter for g in lp.generators] if hasattr(lp, "generators") else [lp.iter]
-                    if any(isinstance(it, ast.Call) and isinstance(it.func, ast.Attribute) and it.func.attr == "importee_parent_modules" for it in its):
-                        for e, pol in cs_:
-                            for sub in ast.walk(e):
-                                if is_internal_call(f, sub) and implies(conds_formula(cs_, copy_prop(f, internal_fns)), f_not(atom(f"bool({norm(sub)})"))):
-                                    ok, why = True, "ancestors of an import established to be external"
-            res.add(
-                "C10.R1",
-                repo.key(f, stmt_of(c)) + f" [{norm(c, 60)}]",
-                ok,
-                f"external pattern applied to a non-internal value only ({why})" if ok else f"`{norm(c, 70)}` applies the external exclusion patterns to `{argn}` without establishing that it is not an internal module: a pattern that textually matches an internal module removes it (and its imports)",
-                where(f, c),
-                kind="dominance",
-            )
-    res.floor("C10.R1", 3, n)
-    # ---- R2
-    sites = [s for s in names.scan(repo) if s.fi.module.name.startswith(SCAN_PKG)]
-    k = add_sites(repo, res, "C10.R2", sites)
-    res.floor("C10.R2", 1, k)
-    # every internal decision in the scan pipeline goes through the internal test (no second notion of 'internal')
-    flt = repo.cls(IMF, "ExternalImportFilter")
-    m = flt.methods.get("_is_internal_import")
-    ok = m is not None and m.fq in internal_fns
-    res.add("C10.R2", f"{flt.module.relpath}::ExternalImportFilter._is_internal_import::uses the internal test", ok, "imports are classified by the boundary-safe internal test" if ok else "ExternalImportFilter no longer classifies imports with the boundary-safe internal test", kind="structural")
-    gi = repo.find_func(GG, "_get_all_internal_modules")
-    if gi is not None:
-        ok = any(is_internal_call(gi, c) for c in calls_in(gi.node))
-        res.add("C10.R2", f"{gi.relpath}::_get_all_internal_modules::uses the internal test", ok, "the internal-module set is selected by the internal test" if ok else "the internal-module set is not selected by the boundary-safe internal test", where(gi, gi.node), kind="structural")
-    # ---- R3
-    calc = repo.cls(IMC, "ImporteeModuleCalculator")
-    cm = calc.methods.get("calculate_importee_modules")
-    if cm is None:
-        raise AnalysisError("ImporteeModuleCalculator.calculate_importee_modules not found")
-    ups = [c for c in calls_in(cm.node) if isinstance(c.func, ast.Attribute) and c.func.attr in ("update", "add", "extend", "append") and any(isinstance(a, (ast.For,)) for a in ancestors(c))]
-    if not ups:
-        raise AnalysisError(f"{cm.fq}: extension of the module set not found")
-    for c in ups:
-        cs_ = conds(cm, c)
-        ok = False
-        for e, pol in cs_:
-            for sub in ast.walk(e):
-                if is_internal_call(cm, sub) and implies(conds_formula(cs_, copy_prop(cm, internal_fns)), f_not(atom(f"bool({norm(sub)})"))):
-                    ok = True
-        res.add(
-            "C10.R3",
-            repo.key(cm, stmt_of(c)),
-            ok,
-            "an importee and its ancestors become modules only if the internal test rejects the importee" if ok else f"`{norm(c, 70)}` adds imported names as modules under `{' and '.join(('' if pol else 'not ') + norm(e, 50) for e, pol in cs_) or 'no guard'}`, not under the negated internal test: names below the internal prefix that are not scanned modules (imported functions, excluded files) become modules, so internal content depends on the external options",
-            where(cm, c),
-            kind="dominance",
-        )
-    # the prefix must reach the calculator
-    ap = repo.func(GG, "_append_external_modules_to_module_list")
-    ctor = [c for c in calls_in(ap.node) if dotted(c.func) == "ImporteeModuleCalculator"]
-    ok = len(ctor) == 1 and any("prefix" in norm(a) for a in [*ctor[0].args, *[k.value for k in ctor[0].keywords]])
-    res.add("C10.R3", f"{ap.relpath}::{ap.qualname}::prefix handed to the calculator", ok, "the calculator receives the internal module prefix" if ok else "the calculator is built without the internal module prefix: nothing counts as internal", where(ap, ap.node), kind="flow")
-    callsite = [c for c in calls_in(gen.node) if dotted(c.func) == ap.name]
-    ok = len(callsite) == 1 and any("prefix" in norm(a) for a in [*callsite[0].args, *[k.value for k in callsite[0].keywords]])
-    res.add("C10.R3", f"{gen.relpath}::{gen.qualname}::prefix handed on", ok, "generate_graph passes the internal prefix on" if ok else "generate_graph does not pass the internal prefix to the module-list extension", where(gen, gen.node), kind="flow")
-    isint = calc.methods.get("_is_internal")
-    if isint is not None:
-        consts = [s for s in own_nodes(isint.node) if isinstance(s, ast.Return) and isinstance(s.value, ast.Constant)]
-        ok = all(implies(guard_formula(isint, s), atom("self._internal_module_prefix is None")) for s in consts)
-        res.add("C10.R3", f"{isint.relpath}::{isint.qualname}::constant answers", ok, "answers without the test only when no prefix is configured" if ok else "the calculator's internal test answers with a constant although a prefix is configured", where(isint, isint.node), kind="dominance")
-    # ---- R4
-    first = ap.body[0] if not (isinstance(ap.body[0], ast.Expr) and isinstance(ap.body[0].value, ast.Constant)) else ap.body[1]
-    flag = ap.param_names[1]
-    ok = isinstance(first, ast.If) and dotted(first.test) == flag and len(first.body) == 1 and isinstance(first.body[0], ast.Return) and dotted(first.body[0].value) == ap.param_names[0]
-    res.add("C10.R4", f"{ap.relpath}::{ap.qualname}::excluded externals: unchanged list", ok, "with externals excluded the scanned module list is returned unchanged, first thing" if ok else "with externals excluded the module list is not returned unchanged before anything else happens", where(ap, ap.node), kind="dominance")
-    fl = flt.methods.get("filter")
-    if fl is None:
-        raise AnalysisError("ExternalImportFilter.filter not found")
-    rets = [s for s in own_nodes(fl.node) if isinstance(s, ast.Return)]
-    for r in rets:
-        gf = guard_formula(fl, r)
-        excl = atom("bool(self._exclude_external_libraries)")
-        has = atom("bool(self._external_exclusion_filter.has_filter())")
-        if implies(gf, excl) and not implies(gf, has):
-            comp = r.value if isinstance(r.value, ast.ListComp) else None
-            ok = comp is not None and len(comp.generators) == 1 and len(comp.generators[0].ifs) == 1 and is_internal_call(fl, comp.generators[0].ifs[0]) and dotted(comp.elt) == dotted(comp.generators[0].target)
-            res.add("C10.R4", repo.key(fl, r) + " [exclude mode]", ok, "with externals excluded exactly the imports accepted by the internal test remain" if ok else "with externals excluded the imports are not filtered by the internal test alone", where(fl, r), kind="structural")
-    keep = flt.methods.get("_is_internal_or_retained_external_import")
-    if keep is None:
-        raise AnalysisError("ExternalImportFilter._is_internal_or_retained_external_import not found")
-    anc = [c for c in calls_in(keep.node) if dotted(c.func) == "any" and c.args and isinstance(c.args[0], ast.GeneratorExp) and any(isinstance(g.iter, ast.Call) and isinstance(g.iter.func, ast.Attribute) and g.iter.func.attr == "importee_parent_modules" for g in c.args[0].generators)]
-    last = [s for s in own_nodes(keep.node) if isinstance(s, ast.Return) and not isinstance(s.value, ast.Constant)]
-    ok = len(anc) == 1 and len(last) == 1 and isinstance(last[0].value, ast.UnaryOp) and isinstance(last[0].value.operand, ast.BoolOp) and isinstance(last[0].value.operand.op, ast.Or) and len(last[0].value.operand.values) == 2
-    res.add("C10.R4", f"{keep.relpath}::{keep.qualname}::ancestor exclusion", ok, "an external is dropped when it or any of its ancestors matches a pattern" if ok else "an external whose ancestor matches a pattern is not dropped together with it (or the retained condition is not `not (excluded or any ancestor excluded)`)", where(keep, keep.node), kind="structural")
-    first_int = [s for s in keep.body if isinstance(s, ast.If)]
-    ok = bool(first_int) and is_internal_call(keep, first_int[0].test) and isinstance(first_int[0].body[0], ast.Return) and isinstance(first_int[0].body[0].value, ast.Constant) and first_int[0].body[0].value.value is True
-    res.add("C10.R4", f"{keep.relpath}::{keep.qualname}::internal imports always retained", ok, "internal imports are retained before any pattern is consulted" if ok else "internal imports are not unconditionally retained before the external patterns are consulted", where(keep, keep.node), kind="dominance")
+    res.not_decided = "equality of the internal sub-graphs across all configurations as a relation between scans; the meaning of the atoms themselves (FileFilter.is_excluded: C08, Import.importee: C02)."
+    res.trusted_base = [
+        "rules/c10_model.py (symbolic interpretation: one generic element per loop, exhaustive propositional evaluation)",
+        "the public entry point rejects external patterns together with exclude_external_libraries (C13.R2): FLAG and HAS exclude each other",
+        "scanned modules lie below module_path (C04): the internal test accepts every scanned module",
+        "vocabulary of the pipeline: FileFilter.is_excluded / has_filter, Parser.parse, ImportConverter.convert, Import.importee / importee_parent_modules, get_parent_modules, NetworkxGraph(modules, imports, ..)",
+    ]
+    it, internal, how = build_model(repo)
+    res.analysed["functions_interpreted"] = len(it.visited)
+    for n in it.notes:
+        res.observe("C10 model: " + n)
+    if not it.sinks:
+        # by role: an object of a class outside the scan package built from a collection that stems from the parser and another one
+        for ci, colls, g, fi, node in it.other_sinks:
+            mods = [c for c in colls if isinstance(c, M.Coll) and any(p.base.startswith("scanned:") for p in M.bases_of(c))]
+            imps = [c for c in colls if isinstance(c, M.Coll) and c not in mods]
+            if len(mods) == 1 and len(imps) == 1:
+                it.sinks.append(M.Sink(mods[0], imps[0], g, fi, node))
+    if not it.sinks:
+        res.undecide("C10.R1", f"{it.entry.relpath}::{it.entry.qualname}::graph construction", f"no construction of {M.SINK_CLASS}(modules, imports, ..) was met while interpreting the scan entry point", where(it.entry, it.entry.node))
+    walk_ok = check_walk(repo, res, it, internal) if it.sinks else None
+    for s in it.sinks:
+        check_sink(repo, res, it, s, walk_ok)
+    run_r2(repo, res, it, internal, how)
     # ---- R5: the scan pipeline keeps no state between scans
-    from .c15 import shared_state_writes
+    from core.effects import Effects
 
-    ws = [w for w in shared_state_writes(repo) if w.fi.module.name.startswith(SCAN_PKG)]
+    eff = Effects(repo, types_of(repo))
+    ws = [w for f in repo.all_functions() if f.module.name.startswith(SCAN_PKG) for w in eff.writes(f) if w.root_kind in ("classvar", "global")]
     for w in ws:
         res.add("C10.R5", repo.key(w.fi, stmt_of(w.node)), False, f"`{header(stmt_of(w.node))}` keeps {w.root_kind} state `{w.root}.{w.field}` in the scan pipeline: verdicts about externals computed for one option set are served to the next scan", where(w.fi, w.node), kind="effect")
     res.add("C10.R5", "src/pytestarch/eval_structure_generation::no shared state", not ws, "no function of the scan pipeline writes class-level or module-level state", kind="effect")
     return res
-
-
-def _is_scanned_set(f: FuncInfo, var: str) -> bool:
-    """`var = set(<module list parameter>)` assigned before the module list is extended."""
-    params = f.param_names
-    for i, s in enumerate(f.body):
-        if isinstance(s, ast.Assign) and dotted(s.targets[0]) == var and isinstance(s.value, ast.Call) and dotted(s.value.func) in ("set", "frozenset") and s.value.args and dotted(s.value.args[0]) in params:
-            src = dotted(s.value.args[0])
-            # no re-assignment of the parameter before this statement
-            for t in f.body[:i]:
-                if any(isinstance(x, ast.Name) and x.id == src and isinstance(x.ctx, ast.Store) for x in ast.walk(t)):
-                    return False
-            return True
-    return False
